@@ -731,9 +731,70 @@ def run(ctx):
     ctx.cov["fiber_sites"] = man.get("fiber_sites")
 
 
+TRIPLE = re.compile(r'\("([^"]*)",\s*"([^"]*)",\s*"([^"]*)"')
+
+
+def _triples(path, start, stop=None):
+    with open(path) as fh:
+        txt = yvlib.strip_coq_comments(fh.read())
+    i = txt.find(start)
+    if i < 0:
+        return []
+    j = txt.find(stop, i + len(start)) if stop else -1
+    return TRIPLE.findall(txt[i:j if j > 0 else len(txt)])
+
+
+def broken_fork_features():
+    """features of the forks whose regenerated site tables differ from the reference tables of ConfigModel.v"""
+    model = os.path.join(yvlib.COQ, "theories", "ConfigModel.v")
+    feats = []
+    try:
+        ref = _triples(model, "Definition cfg_sites_ref", "Definition site_key")
+        gen = _triples(os.path.join(yvlib.COQ, "gen", "CfgSites.v"), "Definition cfg_sites")
+        rest = list(ref)
+        diff = []
+        for t in gen:
+            if t in rest:
+                rest.remove(t)
+            else:
+                diff.append(t)
+        for _, _, cond in diff + rest:
+            for f in FEATURES:
+                if f in cond and f not in feats:
+                    feats.append(f)
+        fref = _triples(model, "Definition fiber_sites_ref", "Definition fiber_sites_match")
+        fgen = _triples(os.path.join(yvlib.COQ, "gen", "FiberSites.v"), "Definition fiber_sites")
+        if fref != fgen and "safe_active_fiber" not in feats:
+            feats.insert(0, "safe_active_fiber")
+    except Exception as e:      # the tables are only used to aim the search
+        log("[C10] broken_fork_features: %s" % e)
+    return feats
+
+
+def search_configurations(feats):
+    """quick set + at most 4 release mixes aimed at the broken forks: the switch alone (only this fork checked) and
+    everything but the switch (only this fork raw)"""
+    extra = []
+    for f in feats:
+        for m in ((f,), tuple(x for x in FEATURES if x != f)):
+            if m not in extra:
+                extra.append(m)
+    for m in (("safe_active_fiber",), ("safe_stack",), ("debug_stress_gc",), ("safe_class_lookup", "safe_vm_opcodes")):
+        if m not in extra:
+            extra.append(m)
+    base = [("debug", ()), ("release", ()), ("release", tuple(FEATURES))]
+    return base + [("release", m) for m in extra[:4]]
+
+
 def search(ctx):
-    """an obligation broke (typically: a cfg site or a fiber assignment site changed): run the thorough mix set"""
+    """an obligation broke (typically: a cfg site or a fiber site changed): bounded search (<= ~6 min): the quick
+    configuration set plus 4 release mixes chosen from the broken site's fork, all repository scripts and a reduced set
+    of generated programs (fresh ones: ctx.rng has advanced)"""
     if not ctx.quick():
-        return     # run() has just done exactly this
-    ctx.notes.append("search: cross-build differential over dev + all 32 release mixes")
-    differential(ctx, configurations(ctx, thorough=True), 200, "search")
+        return     # run() has just compared dev + all 32 release mixes
+    t0 = time.time()
+    feats = broken_fork_features()
+    cfgs = search_configurations(feats)
+    ctx.notes.append("search: forks aimed at %s; configurations %s" % (feats or "(none identified)", [cfg_name(*c) for c in cfgs]))
+    differential(ctx, cfgs, 60, "search")
+    ctx.cov["search_s"] = round(time.time() - t0, 1)
